@@ -20,8 +20,9 @@ pub enum Family {
     Mobility,
     Jam,
     Confront,
+    Elimination,
 }
-pub const FAMILIES: [Family; 15] = [Family::Setup, Family::Random, Family::Sparse, Family::TrapDense, Family::Goal, Family::Cage, Family::Library, Family::Blocked, Family::Edge, Family::PushPull, Family::TrapCluster, Family::Motif, Family::Mobility, Family::Jam, Family::Confront];
+pub const FAMILIES: [Family; 16] = [Family::Setup, Family::Random, Family::Sparse, Family::TrapDense, Family::Goal, Family::Cage, Family::Library, Family::Blocked, Family::Edge, Family::PushPull, Family::TrapCluster, Family::Motif, Family::Mobility, Family::Jam, Family::Confront, Family::Elimination];
 impl Family {
     pub fn name(self) -> &'static str {
         match self {
@@ -40,6 +41,7 @@ impl Family {
             Family::Mobility => "mobility",
             Family::Jam => "jam",
             Family::Confront => "confront",
+            Family::Elimination => "elimination",
         }
     }
 }
@@ -681,6 +683,84 @@ fn confront_board(rng: &mut Rng) -> (Board, Side) {
     (b2, if rng.chance(0.9) { mover } else { mover.other() })
 }
 
+/// Last rabbits: each side is down to one rabbit (sometimes two), standing on a trap with a single
+/// supporter, next to an unguarded trap, or loose, with a few heavier pieces of both colours in
+/// the same neighbourhood, so that within one turn a side can lose its last rabbit (by the
+/// opponent's push or pull, by its own step into the trap, or because its supporter leaves), both
+/// sides can, and play goes on afterwards with captures still on offer.  Few pieces: the whole
+/// first turn is expanded.
+fn elimination_board(rng: &mut Rng) -> Board {
+    let mut b = EMPTY;
+    let mut q = BTreeQuota::new();
+    let t1 = TRAPS[rng.below(4)];
+    // the second rabbit lives at the same trap, at the trap on the same file / rank, or anywhere
+    let t2 = match rng.below(3) {
+        0 => t1,
+        1 => if rng.chance(0.5) { (t1.0, 9 - t1.1) } else { (7 - t1.0, t1.1) },
+        _ => TRAPS[rng.below(4)],
+    };
+    for (side, (tf, tr)) in [(Side::Gold, t1), (Side::Silver, t2)] {
+        let trap = Sq::new(tf, tr);
+        let around: Vec<Sq> = trap.neighbours().collect();
+        let nrab = if rng.chance(0.75) { 1 } else { 2 };
+        for _ in 0..nrab {
+            let goal_rank = if side == Side::Gold { 8 } else { 1 };
+            match rng.below(4) {
+                0 if b[trap.0 as usize].is_none() => {
+                    // on the trap, held by exactly one friend
+                    if q.take(side, Kind::R) {
+                        b[trap.0 as usize] = Some((side, Kind::R));
+                        let sup = around[rng.below(around.len())];
+                        let k = KINDS[1 + rng.below(5)];
+                        if b[sup.0 as usize].is_none() && q.take(side, k) {
+                            b[sup.0 as usize] = Some((side, k));
+                        }
+                    }
+                }
+                1 | 2 => {
+                    // next to the trap
+                    let c = around[rng.below(around.len())];
+                    if b[c.0 as usize].is_none() && c.rank() != goal_rank && q.take(side, Kind::R) {
+                        b[c.0 as usize] = Some((side, Kind::R));
+                    }
+                }
+                _ => {
+                    if q.take(side, Kind::R) && !place_random(&mut b, rng, side, Kind::R, |sq| (2..=7).contains(&sq.rank()) && !sq.is_trap()) {
+                        // no room: the rabbit goes back to the reserve (harmless)
+                    }
+                }
+            }
+        }
+        // heavier pieces of both colours within two squares of the trap
+        let near: Vec<Sq> = (0..64u8).map(Sq).filter(|c| {
+            let d = (c.file() as i8 - tf as i8).abs() + (c.rank() as i8 - tr as i8).abs();
+            d >= 1 && d <= 2
+        }).collect();
+        for _ in 0..(1 + rng.below(3)) {
+            let c = near[rng.below(near.len())];
+            let s2 = if rng.chance(0.6) { side.other() } else { side };
+            let k = KINDS[rng.weighted(&[0, 2, 2, 2, 2, 2])];
+            if b[c.0 as usize].is_none() && q.take(s2, k) {
+                b[c.0 as usize] = Some((s2, k));
+            }
+        }
+    }
+    for side in [Side::Gold, Side::Silver] {
+        if count(&b, side, Kind::R) == 0 && q.take(side, Kind::R) {
+            place_random(&mut b, rng, side, Kind::R, |sq| (2..=7).contains(&sq.rank()) && !sq.is_trap());
+        }
+        // a spare non-rabbit somewhere, so that a side without rabbits can still move
+        if rng.chance(0.6) {
+            let k = KINDS[1 + rng.below(5)];
+            if q.take(side, k) {
+                place_random(&mut b, rng, side, k, |sq| !sq.is_trap());
+            }
+        }
+    }
+    clean_traps(&mut b);
+    b
+}
+
 /// Positions with as many legal first steps as a seeded hill-climb can find (full or nearly full
 /// material, spread out, strong pieces next to weaker enemy pieces with room to be pushed): the
 /// long-list end of the distribution, which random positions never reach.
@@ -847,6 +927,7 @@ pub fn generate(rng: &mut Rng, family: Family) -> Start {
         Family::Mobility => (mobility_board(rng, side), side),
         Family::Jam => (jam_board(rng), side),
         Family::Confront => confront_board(rng),
+        Family::Elimination => (elimination_board(rng), side),
         Family::Library => {
             let text = LIBRARY[rng.below(LIBRARY.len())];
             let (b, s, _) = parse_diagram(text).expect("library diagram");
